@@ -1692,6 +1692,21 @@ void VariableManager::assign_function_parameter(const std::string &name,
 
     // 通常の処理
     assign_function_parameter(name, value, type, is_unsigned);
+
+    // C風enum型のパラメータ (void f(E x)) は整数として束縛されるが、
+    // match (x) でメンバー名を引き直せるように宣言型のenum名を残す
+    if (type == TYPE_ENUM && !type_name.empty() && !value.is_string()) {
+        const EnumDefinition *enum_def =
+            interpreter_->get_enum_manager()->get_enum_definition(type_name);
+        if (enum_def && !enum_def->has_associated_values) {
+            Scope &scope = current_scope();
+            auto it = scope.variables.find(name);
+            if (it != scope.variables.end() && !it->second.is_enum &&
+                it->second.enum_type_name.empty()) {
+                it->second.enum_type_name = type_name;
+            }
+        }
+    }
 }
 
 void VariableManager::assign_array_parameter(const std::string &name,
